@@ -104,3 +104,76 @@ Lemma newpos_monotone off old delta a b : 0 <= old -> 0 <= old + delta ->
 Proof.
   intros Ho Hn Ha Hb Hab. unfold mp4_newpos. destruct (off + old <=? a) eqn:E1; destruct (off + old <=? b) eqn:E2; lia.
 Qed.
+
+(* ------------------------------------------------------------------ C07 / C08: the second save / delete is the identity *)
+Lemma splice_same g o D : 0 <= o -> agree D 0 g o (zlen D) -> splice g o (zlen D) D = g.
+Proof.
+  intros Ho AG. pose proof (zlen_nonneg D) as Hd. destruct AG as (A1 & A2 & A3 & A4 & A5).
+  assert (AGR : agree D 0 g o (zlen D)) by (repeat split; assumption).
+  assert (E : mp4_rd g o (zlen D) = D).
+  { rewrite <- (agree_rd0 _ _ _ _ _ (zlen D) AGR) by lia. apply rd_whole. }
+  unfold splice. rewrite <- E at 2. rewrite rd_is_slice by lia. unfold zslice. replace (o + zlen D - o) with (zlen D) by lia.
+  rewrite <- (ztake_zdrop o g) at 4. f_equal.
+  rewrite <- (ztake_zdrop (zlen D) (zdrop o g)) at 2. f_equal. rewrite zdrop_zdrop by lia. f_equal. lia.
+Qed.
+
+(* a save whose new region bytes are exactly the bytes already there changes nothing *)
+Lemma save_identity g ks path o n ilst' cb' :
+  mp4_atoms g = Ok ks -> mp4_path ks ILST_PATH = Some path -> mp4_region_of path = Some (o, n) ->
+  0 <= o -> zlen (new_region cb' g o n ilst') = n -> agree (new_region cb' g o n ilst') 0 g o n ->
+  mp4_save g ilst' cb' = Ok g.
+Proof.
+  intros Ha Hp Hr Ho Hn AG. unfold mp4_save. rewrite Ha, Hp. unfold mp4_save_existing. rewrite Hr.
+  fold (new_region cb' g o n ilst'). set (D := new_region cb' g o n ilst') in *.
+  pose proof (zlen_nonneg D). destruct AG as (A1 & A2 & A3 & A4 & A5).
+  assert (AGR : agree D 0 g o (zlen D)) by (rewrite Hn; repeat split; assumption).
+  unfold mp4_resize_write. destruct ((n <? 0) || (o <? 0)) eqn:E1; [apply orb_true_iff in E1; lia|].
+  rewrite Hn, Z.eqb_refl. cbn [negb andb]. rewrite Z.sub_diag.
+  unfold mp4_update_parents, mp4_update_offsets. cbn [Z.eqb]. rewrite <- Hn. rewrite (splice_same g o D Ho AGR). reflexivity.
+Qed.
+
+(* C08: deleting twice = deleting once, for any number of free atoms around ilst *)
+Theorem c08_delete_idempotent f f' atoms path :
+  mp4_wf f = true -> mp4_atoms f = Ok atoms -> mp4_path atoms ILST_PATH = Some path -> mp4_tags_clean atoms = true ->
+  mp4_delete f = Ok f' -> mp4_delete f' = Ok f'.
+Proof.
+  intros Hwf Ha Hp Hc Hd. rewrite (delete_is_save f atoms path Ha Hp) in Hd.
+  destruct (wf_forest f atoms Hwf Ha) as (H1 & H2). destruct empty_ilst_ok as (E1 & E2 & E3).
+  destruct (save_existing_found_again f atoms path mp4_empty_ilst (fun _ _ => 0) f' Ha H1 H2 Hp Hc Hd (wf_height f atoms Hwf Ha)
+              empty_ilst_tree E1 E3 eq_refl) as (off & old & atoms' & path' & Hr & Ha' & Hp' & Hr' & AG & _).
+  rewrite delete_region_len in Hr', AG.
+  rewrite (delete_is_save f' atoms' path' Ha' Hp').
+  apply (save_identity f' atoms' path' off 16 mp4_empty_ilst (fun _ _ => 0) Ha' Hp' Hr'); [destruct AG; lia|reflexivity|].
+  rewrite delete_region in *. exact AG.
+Qed.
+
+(* C07: saving the same ilst again is the identity whenever the callback, asked again, returns the padding that is there
+   (the default policy does: Proofs.C09_policy.default_idempotent), for any number of free atoms around ilst *)
+Theorem c07_second_save_identity f ilst_data cb f' atoms path it :
+  mp4_wf f = true -> mp4_atoms f = Ok atoms -> mp4_path atoms ILST_PATH = Some path -> mp4_tags_clean atoms = true ->
+  ilst_wellformed ilst_data it -> mp4_height it <= 62 -> ma_name it = N_ilst ->
+  mp4_save f ilst_data cb = Ok f' ->
+  exists off old, mp4_region_of path = Some (off, old) /\
+    let written := Z.min MP4_MAXPAD (cb (old - (zlen ilst_data + 8)) (zlen f - (off + old))) in
+    (0 <= written -> written + 8 <= 4294967295 ->
+     cb written (zlen f - (off + old)) = written ->
+     mp4_save f' ilst_data cb = Ok f').
+Proof.
+  intros Hwf Ha Hp Hc Hit Hih Hin Hs. destruct (wf_forest f atoms Hwf Ha) as (H1 & H2).
+  destruct (save_existing_found_again f atoms path ilst_data cb f' Ha H1 H2 Hp Hc Hs (wf_height f atoms Hwf Ha) it Hit Hih Hin)
+    as (off & old & atoms' & path' & Hr & Ha' & Hp' & Hr' & AG & Hz).
+  exists off, old. split; [exact Hr|]. cbv zeta. intros Hw0 Hw32 Hcb.
+  set (w := Z.min MP4_MAXPAD (cb (old - (zlen ilst_data + 8)) (zlen f - (off + old)))) in *.
+  set (D := new_region cb f off old ilst_data) in *.
+  assert (HD : D = ilst_data ++ mp4_render N_free (zeros w)) by reflexivity.
+  assert (HDl : zlen D = zlen ilst_data + w + 8).
+  { rewrite HD, zlen_app. unfold mp4_render. rewrite zlen_zeros by lia.
+    destruct (w + 8 <=? 4294967295) eqn:E; [|lia]. rewrite !zlen_app, zlen_be_enc, zlen_zeros by lia. change (zlen N_free) with 4. lia. }
+  assert (HD' : new_region cb f' off (zlen D) ilst_data = D).
+  { unfold new_region at 1. unfold mp4_padding_atom.
+    replace (zlen D - (zlen ilst_data + 8)) with w by lia.
+    replace (zlen f' - (off + zlen D)) with (zlen f - (off + old)) by lia.
+    rewrite Hcb. unfold MP4_MAXPAD in *. rewrite Z.min_r by lia. exact (eq_sym HD). }
+  apply (save_identity f' atoms' path' off (zlen D) ilst_data cb Ha' Hp' Hr'); [destruct AG; lia|rewrite HD'; reflexivity|].
+  rewrite HD'. exact AG.
+Qed.
